@@ -121,6 +121,10 @@ func Programs() []Input {
 	// a program that starts with %! and is fed in pieces (CheckStart applies to the first piece only)
 	cs := tokenised("percent-bang-header", "%!PS-Adobe-3.0\n", "/a", "1", "def", "{", "a", "2", "add", "}", "exec", "[", "a", "a", "]", "length")
 	out = append(out, cs)
+	// DSC comments with continuation lines under CR LF and mixed line ends, and
+	// comments in the middle of a line ended by a bare CR
+	out = append(out, Input{Name: "dsc-comments-crlf", Kind: "ps", Data: []byte("%!PS-Adobe-3.0\r\n%%Title: first part\r\n%%+ second part\r\n%%+ third part\r\n/x 1 def\r\n%%Pages: 3\r\n%%+ 4\r\nx x add\r\n%%EOF\r\n")})
+	out = append(out, Input{Name: "comments-mixed-line-ends", Kind: "ps", Data: []byte("/a 1 def % comment ended by CR\r/b 2 def\n a b add % another\r\n/c 4 def %last\r c add\n%%K: v\r%%+ w\n% plain\r\n%%L: x\n")})
 	// a CMap fed token by token: a piece boundary may fall inside any block
 	out = append(out, tokenised("cmap-token-by-token",
 		"/CIDInit", "/ProcSet", "findresource", "begin", "12", "dict", "begin", "begincmap", "/CMapName", "/T", "def", "/CMapType", "1", "def",
